@@ -308,7 +308,7 @@ func c01(env *Env, rep *Report) {
 	rep.Rule = "histories over a " + fmt.Sprint(len(alpha)) + "-symbol packet alphabet (" + strings.Join(names, " ") + "), x {token auth} x {smart card}: " +
 		"(1) BFS to a fixpoint on the canonical key (processor state, tunnel snapshot, monitor state, ended, steps after end<=2) — all histories modulo the key; " +
 		"(2) unmerged enumeration of every history up to depth d, which also cross-checks the key (equal keys must give equal observations for every one-symbol extension); " +
-		"(3) the depth-<=d' histories again over the real websocket and legacy handlers. distinct_nontrivial = distinct canonical states reached."
+		"(3) the depth-<=d' histories again over the real websocket and legacy handlers; (4) a second legacy RDG_IN_DATA request with the same connection id at three points of the first one's life; (5) the authorization sequence, cookie and capability wiring against the real binary. distinct_nontrivial = distinct canonical states reached."
 	rep.Assumptions = append(rep.Assumptions,
 		"processor level uses a table cookie checker that sets the tunnel fields exactly as security.CheckPAACookie does (the JWT path is C02's); host policy is the real security.CheckSession/CheckHost",
 		"one packet per transport read (segmentation is C08's)",
@@ -452,8 +452,14 @@ func c01(env *Env, rep *Report) {
 			}
 		}
 	}
+	if env.Shard == 0 {
+		c01DoubleIn(rep)
+	}
 	if gwBin() != "" && env.Shard == 0 {
 		bindCore(rep, "C01")
+	}
+	if gwBin() != "" {
+		bindCaps(rep, "C01", env)
 	}
 	rep.add("states", int64(len(states)))
 }
